@@ -424,3 +424,80 @@ def ref_restricted(tree, rules):
         if cr is not None:
             out.append([row, ref_restricted(ch, cr)])
     return out
+
+
+# ------------------------------------------------------------------ small scope, exhaustively
+SMALL_RULE = (" plus the SMALL SPACE of harness/rbgen.py (30 rulebooks `a * [P] / x * [Q]`, `b` over small parameter alphabets x "
+              "all ordered pairs of 104 configurations over {a 1, a 2, b} / {x 1, x 2} = 324480 pairs%s): exhaustively in the "
+              "thorough tier%s, a seed-chosen slice in the quick tier;")
+SMALL_TOP = [None, "%ordered", "%logic=common.undo_redo", "%logic=common.permanent", "%logic=common.ignore_changes"]
+SMALL_CHILD = [None, "%ordered", "%rewrite", "%logic=common.undo_redo", "%logic=common.permanent", "%global"]
+SMALL_ORDERINGS = ["", "b\na *\n    x *\n", "a *  %order_reverse\nb\n", "x *  %global\na *\n"]
+
+
+def small_rulebooks():
+    """every rulebook `a * [P] / x * [Q]` + `b` over the parameter alphabets above (the child rule may be %global)"""
+    out = []
+    for p in SMALL_TOP:
+        for q in SMALL_CHILD:
+            lines = [(0, "a *" + ("  " + p if p else "")), (1, "x *" + ("  " + q if q else "")), (0, "b")]
+            out.append(render(lines))
+    return out
+
+
+def _ordered_selections(items, maxlen):
+    out = [[]]
+    frontier = [[]]
+    for _ in range(maxlen):
+        nxt = []
+        for sel in frontier:
+            for it in items:
+                if it not in sel:
+                    nxt.append(sel + [it])
+        out += nxt
+        frontier = nxt
+    return out
+
+
+def small_configs():
+    """every configuration with top-level rows drawn (in every order) from {a 1, a 2, b} and, below each `a` row, children
+    drawn in every order from {x 1, x 2} (two `a` rows: at most one child each, to keep the space small)"""
+    tops = _ordered_selections(["a 1", "a 2", "b"], 3)
+    kids_full = _ordered_selections(["x 1", "x 2"], 2)
+    kids_one = _ordered_selections(["x 1", "x 2"], 1)
+    out = []
+    for t in tops:
+        a_rows = [r for r in t if r.startswith("a ")]
+        choices = kids_full if len(a_rows) <= 1 else kids_one
+
+        def expand(i, acc):
+            if i == len(t):
+                out.append([list(x) for x in acc])
+                return
+            if t[i].startswith("a "):
+                for ks in choices:
+                    expand(i + 1, acc + [[t[i], [[k, []] for k in ks]]])
+            else:
+                expand(i + 1, acc + [[t[i], []]])
+        expand(0, [])
+    return out
+
+
+def small_space_size():
+    n = len(small_configs())
+    return len(small_rulebooks()) * n * n
+
+
+def small_cases(part, parts, vendors=("huawei", "cisco"), orderings=("",)):
+    """the `part`-th of `parts` slices of the whole small space: rulebooks x ordered config pairs (x orderings)"""
+    rbs = small_rulebooks()
+    cfgs = small_configs()
+    k = 0
+    for ri, ptext in enumerate(rbs):
+        for otext in orderings:
+            for oi, old in enumerate(cfgs):
+                for ni, new in enumerate(cfgs):
+                    if k % parts == part:
+                        yield dict(vendor=vendors[(ri + oi + ni) % len(vendors)], ptext=ptext, otext=otext,
+                                   old=[list(x) for x in old], new=[list(x) for x in new])
+                    k += 1
